@@ -217,6 +217,46 @@ func checkAdvertisedBorders(p *Prog, r *Roles, res *Result, rule string) {
 						k++
 						n++
 						construct := fmt.Sprintf("%s: engine border appended to a list #%d is realigned or the client's own bound", funcName(f), k)
+						// the end of the last partition, advertised inside the loop over the partitions: no iteration can
+						// skip it (a `continue` above it drops the upper bound of the whole list, and everything from
+						// the last advertised border on belongs to no partition)
+						if ri, isRaw := rawOf(st.Val); isRaw && ri.isEnd {
+							if lp := loopOf(c.Block()); lp != nil {
+								var header *ssa.BasicBlock
+								for hb := range lp {
+									for _, pr := range hb.Preds {
+										if !lp[pr] {
+											header = hb
+										}
+									}
+								}
+								// the test that selects the last iteration: the branch the append is control dependent on
+								var sel ssa.Instruction
+								for _, hb := range f.Blocks {
+									if iff := ifOf(hb); iff != nil && lp[hb] && hb != header {
+										for s := 0; s < 2; s++ {
+											if edgeDominates(edge{hb, s}, c.Block()) {
+												sel = iff
+											}
+										}
+									}
+								}
+								if header != nil && sel != nil && len(header.Instrs) > 1 {
+									skip, _ := searchFrom(header, 1, searchOpts{
+										stop: func(i ssa.Instruction) bool { return i == sel },
+										bad:  func(i ssa.Instruction) bool { return i == header.Instrs[0] },
+									})
+									k++
+									n++
+									c2 := fmt.Sprintf("%s: the end of the last partition is advertised by every pass of the loop that reaches the last partition (#%d)", funcName(f), k)
+									if skip != nil {
+										res.bad(rule, c2, p.pos(c.Pos()), "an iteration of the loop over the partitions can go on to the next one without reaching the test that appends the end of the last partition: when that happens in the last iteration (two borders realigned to the same index record are 'collapsed'), the upper bound of the request is never advertised and every key from the last advertised border on belongs to no partition")
+									} else {
+										res.ok(rule, c2, p.pos(c.Pos()), "no path through the loop body avoids the last-partition test")
+									}
+								}
+							}
+						}
 						if l := leak(st.Val, dominatingFacts(c.Block()), 0, map[ssa.Value]bool{}); l != nil {
 							res.bad(rule, construct, p.pos(c.Pos()), "a partition border of the engine is handed on unchanged although it may lie between two versions of one key: a client that streams every advertised [border, next border) on its own receives that key from both streams (the scanner realigns only the borders between the workers of one scan)")
 						} else {
